@@ -478,6 +478,10 @@ def _rule3(ctx, rep):
                 env = dict(st)
 
                 def split(name, none_when_true):
+                    if env.get(name) == 'none':  # already known to be None on this path
+                        return ((st,), ()) if none_when_true else ((), (st,))
+                    if env.get(name) == 'rawnn':  # already known not to be None
+                        return ((), (st,)) if none_when_true else ((st,), ())
                     if env.get(name) != 'raw':
                         return (st,), (st,)
                     a = frozenset({**env, name: 'none'}.items())
@@ -511,6 +515,18 @@ def _rule3(ctx, rep):
             'the certificate passed to sanctioned() is the transport peer certificate itself, None, or built from it only where it is known not to be None',
             'the certificate passed to sanctioned() is built by a call from a peer certificate that may be None: the result is never None, so '
             'is_sanctioned (which recognises an anonymous caller by `cert is None`) treats every caller on a TLS transport as certified',
+        )
+        # the identity of the caller is what the TLS transport vouches for, nothing the caller sends (added after seeded
+        # change C19-11: a certificate taken from an X-SSL-Client-Cert request header when the connection had none)
+        r.instance()
+        foreign = [c for c, tg in pv.at_check if tg == 'other']
+        r.check(
+            not foreign,
+            f'{g.qname}:certificate-from-transport',
+            where(g, foreign[0] if foreign else pv.at_check[0][0]),
+            'the certificate passed to sanctioned() derives from the transport peer certificate on every path',
+            'on some path the certificate passed to sanctioned() does not come from the peer certificate of the connection (' + (norm(foreign[0].args[1])[:40] if foreign else '') +
+            ' is bound to something else, e.g. request data): a caller without a client certificate can present a known public certificate and is treated as that client',
         )
         # (c) every render_* goes through __render
         cls = prog.cls('dawgie.fe.basis.DynamicContent')
@@ -659,6 +675,9 @@ def check(ctx):
 
 
 VARIANTS = [
+    V('certificate taken from a request header when the transport has none', 'B', 'fe/basis.py', 'DynamicContent.__render', 'else:\n            cert = None', "else:\n            cert = None\n        if cert is None:\n            cert = request.getHeader('x-ssl-client-cert')", 'R-C19-3'),
+    V('certificate looked up through a local for the transport', 'N', 'fe/basis.py', 'DynamicContent.__render', 'cert = request.transport.getPeerCertificate()', 'transport = request.transport\n            cert = transport.getPeerCertificate()', None),
+
     V('valid flag test removed', 'B', 'fe/__init__.py', '_static', 'if valid and ffn.is_file():', 'if ffn.is_file():', 'R-C19-1'),
     V('containment checked on unresolved path', 'B', 'fe/__init__.py', '_static', 'ffn = (d / fn).resolve()', 'ffn = d / fn', 'R-C19-1'),
     V('index.html appended without re-resolve', 'B', 'fe/__init__.py', '_static', "ffn = (ffn / 'index.html').resolve()", "ffn = ffn / 'index.html'", 'R-C19-1'),
